@@ -2,6 +2,7 @@ import BufProofs.Lemmas.FilterLemmas
 import BufProofs.Lemmas.FilterRewriteLemmas
 import BufProofs.Lemmas.FilterOutputLemmas
 import BufProofs.Lemmas.FilterCommentLemmas
+import BufProofs.Lemmas.FilterOneofLemmas
 /-
   C12 — Type filtering yields a self-contained, minimal, otherwise unchanged image.
   Model: BufModel/Filter.lean (closure = task machine `run`, rewrite = `remapFile`).
@@ -18,9 +19,12 @@ import BufProofs.Lemmas.FilterCommentLemmas
                                       every `buildIndex` output: `buildIndex_wf`)
     * filter_links_partial            every type / extendee / request / response reference of the output
                                       resolves to an element declared in the output, in the same file or
-                                      in a file the referring file lists as dependency (include filters,
-                                      or images without import files; oneof / map-entry / extension-range
-                                      clauses of `linksB` not covered)
+                                      in a file the referring file lists as dependency; every `oneof_index`
+                                      of every message (any depth) is in range and every oneof has a member
+                                      (include filters, or images without import files; map-entry /
+                                      extension-range clauses of `linksB` not covered)
+    * filter_links_oneof_index        the oneof-index clause alone, for EVERY filter (no mode hypothesis):
+                                      provable since the repair of `oneof-index-not-renumbered`
     * comments_follow_file_partial    source locations, FILE level (`remapLocs` over the merged marks of
                                       the whole file): messages at any nesting depth — kept ones move to
                                       the path with the new indexes, everything at or below a dropped
@@ -34,15 +38,20 @@ import BufProofs.Lemmas.FilterCommentLemmas
       correspondence leg
     * comments_follow_elements_partial / comments_follow_messages_partial / marks_stay_below: ONE slice's
       own marks (superseded for messages by comments_follow_file_partial)
-    * *_counterexample                the pre-fix behaviours (9a, 9b, 9f), the as-coded families that are
-                                      recorded known findings, the model's too small `defaultFuel`
-  NOT proved (correspondence + implementation oracle only): the oneof / map-entry / extension-range
+    * closure_oneof_dropped_only_if_empty (the third run invariant `OInv`), rewrite_renumbers_oneofs
+      (a kept member of a kept oneof still names ITS oneof), dropped_extension_adds_nothing
+    * include_extension_excluded_type_is_conflict (model sanity: the new check of `includeType`)
+    * *_counterexample                the pre-fix behaviours (9a, 9b, 9d, 9f, dropped extension keeps its
+                                      extendee's import, included extension silently dropped), the as-coded
+                                      families that are recorded known findings, the model's too small
+                                      `defaultFuel`
+  NOT proved (correspondence + implementation oracle only): the map-entry / extension-range
     clauses of `linksB`, filter_minimal, filter_total, filter_idempotent (not statable: no
-    OFile → Image), message-level survivors_unchanged.  See handoff/C12-proofs2.md.
+    OFile → Image), message-level survivors_unchanged.  See handoff/C12-proofs2.md, C12-fixes.md.
 -/
 namespace BufProofs.C12
 open BufModel.Filter BufProofs.FilterLemmas BufProofs.FilterClosure BufProofs.FilterRewrite
-open BufProofs.FilterIndex BufProofs.FilterOutput BufProofs.FilterComment
+open BufProofs.FilterIndex BufProofs.FilterOutput BufProofs.FilterComment BufProofs.FilterOneof
 
 /-! ### excludes -/
 
@@ -174,6 +183,16 @@ def linksOf : Except Err (List OFile) → Option Bool | .ok o => some (linksB o)
 def idsOf : Except Err (List OFile) → Option (List (Id × List Id))
   | .ok o => some (o.map fun f => (f.id, (presentFile f).map (·.id))) | .error _ => none
 
+/-- per top-level message of the output: id, (field id, oneof index + 1 or 0) of its fields -/
+def oneofIdxOf : Except Err (List OFile) → Option (List (Id × List (Id × Nat)))
+  | .ok o => some ((o.map fun f => f.msgs.map fun m =>
+      (m.id, m.fields.map (fun x => (x.id, match x.oneof with | some i => i + 1 | none => 0)))).flatten)
+  | .error _ => none
+/-- per top-level message of the output: id, number of oneof declarations -/
+def oneofCountOf : Except Err (List OFile) → Option (List (Id × Nat))
+  | .ok o => some ((o.map fun f => f.msgs.map fun m => (m.id, m.oneofs.length)).flatten)
+  | .error _ => none
+
 def m0 (id : Id) (fields : List Field := []) : Msg := .mk id fields [] [] [] [] [] false false []
 def fld (id : Id) (ty : Option Id := none) (oneof : Option Nat := none) : Field := ⟨id, ty, oneof, none, []⟩
 
@@ -238,9 +257,19 @@ def imgOneof : Image :=
         enums := [], svcs := [], exts := [], opts := [], locs := [] }],
     pkgs := [0, 10] }
 
-/-- Known finding (as coded): the emptied oneof is removed but `oneof_index` 1 is not renumbered. -/
+/-- 9d (pre-fix, `cfgStaleOneof`): the emptied oneof is removed but `oneof_index` 1 is not renumbered
+    — field y(22) and z(23) point past the one remaining oneof and the result does not link. -/
 theorem filter_links_oneof_index_counterexample :
-    linksOf (filter imgOneof { includes := [13], excludes := [11] }) = some false := by decide
+    linksOf (filterWith cfgStaleOneof imgOneof { includes := [13], excludes := [11] } (defaultFuel imgOneof)) = some false ∧
+    oneofIdxOf (filterWith cfgStaleOneof imgOneof { includes := [13], excludes := [11] } (defaultFuel imgOneof)) =
+      some [(12, []), (13, [(22, 2), (23, 2)])] ∧
+    oneofCountOf (filterWith cfgStaleOneof imgOneof { includes := [13], excludes := [11] } (defaultFuel imgOneof)) =
+      some [(12, 0), (13, 1)] := by decide
+
+-- the repaired behaviour: the members of `second` now carry index 0 and the result links
+example : linksOf (filter imgOneof { includes := [13], excludes := [11] }) = some true ∧
+    oneofIdxOf (filter imgOneof { includes := [13], excludes := [11] }) = some [(12, []), (13, [(22, 1), (23, 1)])] ∧
+    oneofCountOf (filter imgOneof { includes := [13], excludes := [11] }) = some [(12, 0), (13, 1)] := by decide
 
 /-- target a.proto (file 1, pkg 10, imports 2): A(11){ D1 x }; non-target dep.proto (file 2, pkg 20,
     imports 3): D1(21), D2(22){ O o }; non-target other.proto (file 3, pkg 30): O(31). -/
@@ -334,9 +363,9 @@ theorem closure_closed (cfg : Cfg) (hcfg : cfg.svcMarksInput = false) (img : Ima
     is either `M`'s own file or the import edge `file(M) → file(t)` is recorded (which is what
     `remapDeps` lists).  Likewise both types of a visited method, and the extendee and type of a
     visited extension; and every key with a non-excluded mode has a parent with a mode.
-    No hypothesis on the image or the filter is needed at this level: the three known-finding
-    families break `linksB` only in the rewrite (map entry loses its value field, oneof indexes
-    are not renumbered) or through `hasType` of *unvisited* keys in exclude-only filters. -/
+    No hypothesis on the image or the filter is needed at this level: the known-finding
+    families break `linksB` only in the rewrite (map entry loses its value field) or through
+    `hasType` of *unvisited* keys in exclude-only filters. -/
 theorem filter_links_closure_partial (cfg : Cfg) (hcfg : cfg.svcMarksInput = false) (img : Image) (o : Opts) (fuel : Nat)
     (st : St) (h : closure cfg img o fuel = .ok st) (k : Key) (i : Info)
     (hi : (buildIndex img).find k = some i) :
@@ -405,8 +434,10 @@ theorem filter_links_imports_partial (img : Image) (o : Opts) (fuel : Nat) (st :
 /-- **filter_keeps_includes, closure level**: an include naming any indexed non-extension element
     (message, enum, service, method) ends `explicit` in the closure of the current code — later
     includes, the include-everything default and addExtensions never demote it.  (Extensions are
-    excepted as coded: an included extension whose value type is excluded is silently dropped —
-    known finding `included-extension-silently-dropped`.) -/
+    not covered by this invariant: an extension key is the one kind of element key a later step may
+    still exclude.  Including an extension whose extendee or — since the repair of
+    `included-extension-silently-dropped` — whose value type is excluded is an error:
+    `include_extension_excluded_type_is_conflict`.) -/
 theorem filter_keeps_includes_closure_partial (cfg : Cfg) (hcfg : cfg.svcMarksInput = false) (img : Image) (o : Opts)
     (fuel : Nat) (st : St) (h : closure cfg img o fuel = .ok st) (n : Id) (hn : n ∈ o.includes)
     (i : Info) (hi : (buildIndex img).find (.el n) = some i) (hne : i.fld = none) :
@@ -477,7 +508,7 @@ theorem marks_stay_below (c : RCtx) (p : List Nat) (m : Msg) : Below p (remapMsg
 
 -- non-vacuity: nested messages [13 dropped, 14 kept (with a dropped nested 15 of its own)] below [4,0,3]
 example :
-    let c : RCtx := ⟨{ modes := [(.el 14, .explicit)] }, false, true⟩
+    let c : RCtx := ⟨{ modes := [(.el 14, .explicit)] }, false, true, true⟩
     let ms := [m0 13, Msg.mk 14 [] [] [] [m0 15] [] [] false false []]
     fixPath (remapMsgs c [4, 0, 3] ms 0 0).2 [4, 0, 3] [1] = some ([0], false) ∧
     fixPath (remapMsgs c [4, 0, 3] ms 0 0).2 [4, 0, 3] [0] = none ∧ msgFlags c ms = [false, true] := by decide
@@ -540,27 +571,90 @@ example : idsOf (filter imgExt { includes := [15, 14], excludes := [12] }) = som
 
 /-! ### links, at the level of the function the driver runs -/
 
-/-- **filter_links, output level** (partial: the reference clauses of `linksB`).  If the filter of
-    the current code succeeds, then for every output file `of` and every reference `t` it contains —
-    the type of a kept field or extension at any depth, the request / response type of a kept
-    method (`typeRefs`), the extendee of a kept extension (`extendeeRefs`) — there is an output file
-    `of'` that DECLARES `t` (`outIds`), and `of'` is `of` itself or is listed in `of.deps`.
+/-- **filter_links, output level** (partial: the reference and the oneof clauses of `linksB`).  If the
+    filter of the current code succeeds, then for every output file `of`
+    (1) every reference `t` it contains — the type of a kept field or extension at any depth, the
+        request / response type of a kept method (`typeRefs`), the extendee of a kept extension
+        (`extendeeRefs`) — is DECLARED by an output file `of'` (`outIds`), and `of'` is `of` itself or is
+        listed in `of.deps`;
+    (2) in every message of `of`, at any nesting depth (`msgsAll`), every `oneof_index` is in range
+        of the message's oneof declarations (`OneofOK`) and every oneof declaration has a member
+        field (`OneofFull`) — the two oneof clauses of `msgOK`.  NEW with the repair of
+        `oneof-index-not-renumbered`; false for the pre-fix rewrite
+        (`filter_links_oneof_index_counterexample`).
     Hypotheses: unique ids (`UniqIdx`); extensions name non-extension extendees, ordinary fields
     have none (`WFRefs`); every reference of the INPUT image resolves to an indexed message / enum
-    (`RefsResolve`, the props.py assumption "images are well-formed"); and the mode hypothesis that
-    excludes known finding 9e: the filter has an include, or the image has no import file and
-    `FileTypes` lists every declared element (`NoImportCover`).  All four are decidable
-    (`uniqIdxB`, `wfRefsB`, `refsResolveB`, `noImportCoverB`).
-    Not covered (the other clauses of `linksB`, false as coded on the recorded families 9c / 9d):
-    a map entry keeps two fields, oneof indexes stay valid and oneofs non-empty, an extendee keeps
-    its extension ranges; and that every listed dependency is itself in the output (enforced by
-    `rewrite`'s `internal` check, not restated here). -/
+    (`RefsResolve`) and every `oneof_index` of the INPUT is in range (`OneofsWF`) — the props.py
+    assumption "images are well-formed"; and the mode hypothesis that excludes known finding 9e: the
+    filter has an include, or the image has no import file and `FileTypes` lists every declared
+    element (`NoImportCover`).  All five are decidable (`uniqIdxB`, `wfRefsB`, `refsResolveB`,
+    `oneofsWFB`, `noImportCoverB`).
+    Not covered (the other clauses of `linksB`, false as coded on the recorded family 9c): a map
+    entry keeps two fields, an extendee keeps its extension ranges; and that every listed dependency
+    is itself in the output (enforced by `rewrite`'s `internal` check, not restated here). -/
 theorem filter_links_partial (img : Image) (o : Opts) (fuel : Nat) (out : List OFile)
     (h : filterWith cfgFixed img o fuel = .ok out) (hu : UniqIdx (buildIndex img)) (hr : WFRefs (buildIndex img))
-    (hres : RefsResolve (buildIndex img)) (hmode : o.includes ≠ [] ∨ NoImportCover img)
-    (of : OFile) (hof : of ∈ out) (t : Id) (ht : t ∈ typeRefs of ∨ t ∈ extendeeRefs of) :
-    ∃ of' ∈ out, t ∈ outIds of' ∧ (of'.id = of.id ∨ of'.id ∈ of.deps) :=
-  filterWith_refs_resolve img o fuel out h hu hr hres hmode of hof t ht
+    (hres : RefsResolve (buildIndex img)) (hw : OneofsWF (buildIndex img))
+    (hmode : o.includes ≠ [] ∨ NoImportCover img) (of : OFile) (hof : of ∈ out) :
+    (∀ t, (t ∈ typeRefs of ∨ t ∈ extendeeRefs of) →
+      ∃ of' ∈ out, t ∈ outIds of' ∧ (of'.id = of.id ∨ of'.id ∈ of.deps)) ∧
+    (∀ y ∈ msgsAll of.msgs, OneofOK y ∧ OneofFull y) :=
+  ⟨fun t ht => filterWith_refs_resolve img o fuel out h hu hr hres hmode of hof t ht,
+   fun y hy => ⟨filterWith_oneofs_ok img o fuel out h hu hw of hof y hy,
+     filterWith_oneofs_full img o fuel out h hu hr hres hw hmode of hof y hy⟩⟩
+
+/-- **the oneof-index clause of filter_links, for every filter**.  If the filter of the current code
+    succeeds on an image with unique ids whose own oneof indexes are in range, then in every message
+    of every output file, at any nesting depth, every `oneof_index` is in range of the oneof
+    declarations the message kept.  No mode hypothesis: exclude-only filters over images with import
+    files (family 9e) are covered too — an unvisited message keeps all its oneofs.  This is the
+    statement the defect `oneof-index-not-renumbered` made false (`protodesc`: "invalid oneof
+    index"); it rests on the rewrite renumbering the kept fields (`rewrite_renumbers_oneofs`) and
+    on the run invariant `closure_oneof_dropped_only_if_empty`. -/
+theorem filter_links_oneof_index (img : Image) (o : Opts) (fuel : Nat) (out : List OFile)
+    (h : filterWith cfgFixed img o fuel = .ok out) (hu : UniqIdx (buildIndex img)) (hw : OneofsWF (buildIndex img))
+    (of : OFile) (hof : of ∈ out) (y : Msg) (hy : y ∈ msgsAll of.msgs) (g : Field) (hg : g ∈ y.fields)
+    (j : Nat) (hj : g.oneof = some j) : j < y.oneofs.length :=
+  filterWith_oneofs_ok img o fuel out h hu hw of hof y hy g hg j hj
+
+/-- **The third run invariant, closure level** (`FilterOneof.OInv`, by induction over the task
+    machine with the stack invariant "every `oneofs` task names an element key").  In the final
+    closure of the current code a oneof key is excluded only if EVERY member field of that oneof has
+    an excluded type — so the rewrite, which drops exactly the fields whose type is excluded, never
+    keeps a member of a oneof it drops.  Nothing is assumed about the image or the filter. -/
+theorem closure_oneof_dropped_only_if_empty (cfg : Cfg) (hcfg : cfg.svcMarksInput = false) (img : Image) (o : Opts)
+    (fuel : Nat) (st : St) (h : closure cfg img o fuel = .ok st) (m : Id) (n : Nat) (i : Info)
+    (hx : st.get (.oneof m n) = some .excluded) (hi : (buildIndex img).find (.el m) = some i)
+    (f : Field) (hf : f ∈ i.fields) (ho : f.oneof = some n) :
+    ∃ t, f.ty = some t ∧ st.get (.el t) = some .excluded := by
+  obtain ⟨t, ht, h4⟩ := closure_oinv cfg hcfg img o fuel st h m n i (rk_excl.mpr hx) hi f hf ho
+  exact ⟨t, ht, rk_excl.mp h4⟩
+
+/-- Model sanity + list arithmetic (rewrite level, any `RCtx` that renumbers): in a kept message
+    that is not enclosing-only, a kept field `g0` that is a member of input oneof `i` (in range, not
+    dropped) comes out with `oneof_index = j` where `j` = number of kept oneofs before `i`; `j` is in
+    range of the output's oneof list and the output's oneof `j` IS the input's oneof `i`: the field
+    still names its oneof. -/
+theorem rewrite_renumbers_oneofs (c : RCtx) (id : Id) (path : List Nat) (oneofs : List Oneof) (g0 : Field) (i : Nat)
+    (hi : g0.oneof = some i) (hlt : i < oneofs.length) (hk : c.st.get (.oneof id i) ≠ some .excluded) :
+    ∃ j, (renumberOneof (newOneofIndexes c.st id oneofs.length 0 0) g0).oneof = some j ∧
+      j < (remapSlice (path ++ [8]) (remapOneof c id) oneofs 0 0).1.length ∧
+      (remapSlice (path ++ [8]) (remapOneof c id) oneofs 0 0).1[j]? = oneofs[i]? := by
+  obtain ⟨j, h1, h2, h3, _⟩ := renumbered_names_oneof c id path oneofs g0 i hi hlt hk
+  exact ⟨j, h1, h2, h3⟩
+
+-- non-vacuity of the oneof clauses, ALL hypotheses of filter_links_partial (include filter): imgOneof,
+-- include A(13), exclude X(11) — oneof `first` is dropped, y and z follow `second` to index 0
+example : uniqIdxB (buildIndex imgOneof) = true ∧ wfRefsB (buildIndex imgOneof) = true ∧
+    refsResolveB (buildIndex imgOneof) = true ∧ oneofsWFB (buildIndex imgOneof) = true ∧
+    oneofIdxOf (filter imgOneof { includes := [13], excludes := [11] }) = some [(12, []), (13, [(22, 1), (23, 1)])] := by
+  decide
+
+example : ∀ out, filterWith cfgFixed imgOneof { includes := [13], excludes := [11] } (defaultFuel imgOneof) = .ok out →
+    ∀ of ∈ out, ∀ y ∈ msgsAll of.msgs, OneofOK y ∧ OneofFull y := by
+  intro out h of hof
+  exact (filter_links_partial imgOneof _ _ out h (uniqIdx_of_B _ (by decide)) (wfRefs_of_B _ (by decide))
+    (refsResolve_of_B _ (by decide)) (oneofsWF_of_B _ (by decide)) (Or.inl (by simp)) of hof).2
 
 -- non-vacuity, include filter over an image WITH import files: A{ D1 x } pulls D1 from file 2
 example : uniqIdxB (buildIndex imgImport) = true ∧ wfRefsB (buildIndex imgImport) = true ∧
@@ -576,6 +670,114 @@ example : uniqIdxB (buildIndex imgExt) = true ∧ wfRefsB (buildIndex imgExt) = 
     (match filter imgExt { includes := [], excludes := [18] } with
       | .ok o => some (o.map fun f => (outIds f, typeRefs f, extendeeRefs f)) | .error _ => none) =
       some [([11, 12, 13, 15, 16, 17, 14], [11, 12, 13, 11, 13, 13, 13], [11])] := by decide
+
+/-! ### an extension dropped for its value type contributes nothing (repair of `dropped-extension-leaves-extendee-import`) -/
+
+/-- Current code (`extendeeFirst = false`): `addElement` of a not yet visited extension whose value
+    type is already excluded — and whose extendee is not — marks the extension excluded and pushes NO
+    task: the extendee is not added, no import is recorded (`seen`, `edges` unchanged), no other key
+    changes.  (Before the repair the step pushed `add extendee (ref := the extension's file)` first,
+    which recorded the import of the extendee's file although the extension is dropped:
+    `filter_minimal_dropped_extension_counterexample`.) -/
+theorem dropped_extension_adds_nothing (c : Ctx) (hcfg : c.cfg.extendeeFirst = false) (st : St) (k : Key)
+    (ref : Option Id) (implied : Bool) (i : Info) (f : Field) (e t : Id)
+    (hi : c.idx.find k = some i) (hkind : i.kind = .ext) (hf : i.fld = some f) (he : f.extendee = some e)
+    (ht : f.ty = some t) (hx : st.isExcl (.el t) = true) (hnew : st.get k = none) :
+    ∃ st1, step c st (.add k ref implied) = .ok (st1, []) ∧ st1.get k = some .excluded ∧
+      st1.seen = st.seen ∧ st1.edges = st.edges ∧ ∀ k', k' ≠ k → st1.get k' = st.get k' := by
+  have hte : ∀ s : St, (∀ k', k' ≠ k → s.get k' = st.get k') → k ≠ .el t → typeExcluded s f = true := by
+    intro s hs hne
+    unfold typeExcluded St.isExcl
+    rw [ht]
+    simp only [hs _ (Ne.symm hne)]
+    exact hx
+  have hkt : k ≠ .el t := by
+    intro e'
+    rw [e'] at hnew
+    unfold St.isExcl at hx
+    rw [hnew] at hx
+    simp at hx
+  have hstep : step c st (.add k ref implied) = expand c (st.set k (newMode implied)) k ref implied i := by
+    simp only [step, hi, hnew]
+  have hother : ∀ k', k' ≠ k → ((st.set k (newMode implied)).set k .excluded).get k' = st.get k' := by
+    intro k' hk'
+    rw [get_set, get_set]
+    simp [hk']
+  refine ⟨(st.set k (newMode implied)).set k .excluded, ?_, by rw [get_set]; simp, rfl, rfl, hother⟩
+  rw [hstep]
+  unfold expand
+  by_cases hee : (st.set k (newMode implied)).isExcl (.el e) = true
+  · simp only [hkind, hf, he, hee, if_true]
+  · have h2 := hte (st.set k (newMode implied)) (fun k' hk' => by rw [get_set]; simp [hk']) hkt
+    simp only [hkind, hf, he, hee, hcfg, h2, if_false, Bool.not_false, Bool.and_self, if_true, Bool.false_eq_true]
+
+/-- x/f4.proto (file 1, imports file 2): `message NE`(11); `message K`(12) { int32 k (31) };
+    `extend M7 { NE x89 (13) }`.  y/f1.proto (file 2): `message M7`(21) { extensions … }. -/
+def imgDropExt : Image :=
+  { files := [
+      { id := 2, pkg := 10, isImport := false, deps := [], types := [21],
+        msgs := [.mk 21 [] [] [] [] [] [[]] false false []], enums := [], svcs := [], exts := [], opts := [], locs := [] },
+      { id := 1, pkg := 10, isImport := false, deps := [⟨2, false⟩], types := [11, 12, 13],
+        msgs := [m0 11, m0 12 [fld 31]], enums := [], svcs := [],
+        exts := [⟨13, some 11, none, some 21, []⟩], opts := [], locs := [] }],
+    pkgs := [0, 10] }
+
+def depsOf : Except Err (List OFile) → Option (List (Id × List Id))
+  | .ok o => some (o.map fun f => (f.id, f.deps)) | .error _ => none
+
+/-- pre-fix (`cfgExtendeeFirst`): excluding the value type NE drops the extension x89, but file 1 keeps
+    the import of file 2 (the extendee's file) although nothing it still declares refers to file 2 —
+    for an include filter and for an exclude-only filter.  The current code drops that import. -/
+theorem filter_minimal_dropped_extension_counterexample :
+    depsOf (filterWith cfgExtendeeFirst imgDropExt { includes := [12, 21], excludes := [11] } (defaultFuel imgDropExt)) =
+      some [(2, []), (1, [2])] ∧
+    depsOf (filterWith cfgExtendeeFirst imgDropExt { includes := [], excludes := [11] } (defaultFuel imgDropExt)) =
+      some [(2, []), (1, [2])] ∧
+    depsOf (filter imgDropExt { includes := [12, 21], excludes := [11] }) = some [(2, []), (1, [])] ∧
+    depsOf (filter imgDropExt { includes := [], excludes := [11] }) = some [(2, []), (1, [])] ∧
+    idsOf (filter imgDropExt { includes := [12, 21], excludes := [11] }) = some [(2, [21]), (1, [12])] ∧
+    idsOf (filterWith cfgExtendeeFirst imgDropExt { includes := [12, 21], excludes := [11] } (defaultFuel imgDropExt)) =
+      some [(2, [21]), (1, [12])] := by decide
+
+-- non-vacuity of dropped_extension_adds_nothing: x89(13) of imgDropExt after NE(11) was excluded
+example : ((buildIndex imgDropExt).find (.el 13)).map (fun i => (i.kind, i.fld.map (fun f => (f.extendee, f.ty)))) =
+    some (.ext, some (some 21, some 11)) := by decide
+
+/-! ### including an extension whose value type is excluded (repair of `included-extension-silently-dropped`) -/
+
+/-- Current code (`silentExtDrop = false`): `includeType` of an extension (not an import, not itself
+    excluded, extendee not excluded) whose value type is excluded answers `conflict` — the filter
+    fails loudly instead of succeeding without the included extension. -/
+theorem include_extension_excluded_type_is_conflict (c : Ctx) (hcfg : c.cfg.silentExtDrop = false) (img : Image)
+    (o : Opts) (fuel : Nat) (st : St) (n : Id) (i : Info) (f : Field) (e t : Id)
+    (hi : c.idx.find (.el n) = some i) (hf : i.fld = some f) (he : f.extendee = some e) (ht : f.ty = some t)
+    (hx : st.isExcl (.el t) = true) :
+    ∃ err, includeType c img o fuel st n = .error err := by
+  unfold includeType
+  rw [hi]
+  simp only []
+  split
+  · exact ⟨_, rfl⟩
+  · split
+    · exact ⟨_, rfl⟩
+    · split
+      · exact ⟨_, rfl⟩
+      · have h2 : extTypeExcluded st i = true := by
+          unfold extTypeExcluded typeExcluded
+          rw [hf]
+          simp only [he, ht, hx, Option.isSome_some, Bool.and_self]
+        simp only [hcfg, h2, Bool.not_false, Bool.and_self, if_true]
+        exact ⟨_, rfl⟩
+
+/-- pre-fix (`cfgSilentExtDrop`): `include: [K, x89]`, `exclude: [NE]` (the value type of x89) on imgDropExt
+    succeeds and the result does not contain the included extension 13; the current code answers
+    `conflict` (also for the include of x89 alone).  When the value type is kept the extension is kept. -/
+theorem filter_keeps_includes_extension_counterexample :
+    idsOf (filterWith cfgSilentExtDrop imgDropExt { includes := [12, 13], excludes := [11] } (defaultFuel imgDropExt)) =
+      some [(1, [12])] ∧
+    errOf (filter imgDropExt { includes := [12, 13], excludes := [11] }) = some .conflict ∧
+    errOf (filter imgDropExt { includes := [13], excludes := [11] }) = some .conflict ∧
+    idsOf (filter imgDropExt { includes := [13], excludes := [12] }) = some [(2, [21]), (1, [11, 13])] := by decide
 
 /-! ### source locations at file level -/
 
@@ -628,7 +830,7 @@ def fileNest : File :=
     enums := [], svcs := [], exts := [], opts := [],
     locs := [⟨[4, 1, 3, 1, 3, 1], 7⟩, ⟨[4, 1, 3, 1, 3, 0, 1], 8⟩, ⟨[4, 1, 3, 1, 3, 1, 1], 9⟩] }
 
-def cNest : RCtx := ⟨{ modes := [(.file 1, .explicit), (.el 11, .enclosing), (.el 13, .enclosing), (.el 15, .explicit)] }, false, true⟩
+def cNest : RCtx := ⟨{ modes := [(.file 1, .explicit), (.el 11, .enclosing), (.el 13, .enclosing), (.el 15, .explicit)] }, false, true, true⟩
 
 -- non-vacuity of comments_follow_file_partial: E(15) sits at [4,1,3,1,3,1]; all three index levels shift
 example : MsgAt cNest fileNest.msgs [1, 3, 1, 3, 1] [0, 3, 0, 3, 0] (m0 15) :=
